@@ -4,7 +4,9 @@
 //! cases and writes `<outdir>/cases.tsv` (request \t impl answer \t tags) and
 //! `<outdir>/stats.json`.
 mod case;
+mod fexpr;
 mod frun;
+mod world;
 mod props;
 mod recorder;
 mod rng;
